@@ -256,6 +256,8 @@ class P:
         return self.peek(k)[1] == v and self.peek(k)[0] != "str"
     def eat(self, v=None):
         kind, val = self.peek()
+        if kind is None:
+            raise ParseError("unexpected end of the function body (token %d)" % self.i)
         if v is not None and val != v:
             raise ParseError("expected %r, got %r (token %d: ...%s)" % (v, val, self.i, " ".join(x[1] for x in self.t[max(0, self.i - 6):self.i + 3])))
         self.i += 1
